@@ -151,7 +151,10 @@ func (o *Operations) Update(
 				hdr.PAXRecords[records.STFSRecordSignature] = signature
 			}
 			hdr.Size = int64(fileSizeCounter.BytesRead)
+		}
 
+		// The indexer removes the suffix from every regular file's name, so add it even if the record has no content
+		if file.Info.Mode().IsRegular() {
 			hdr.Name, err = suffix.AddSuffix(hdr.Name, o.pipes.Compression, o.pipes.Encryption)
 			if err != nil {
 				return []*tar.Header{}, err
